@@ -50,7 +50,7 @@ fn valid_frame(big: bool) -> BoxedStrategy<RFrame> {
     let blk = if big {
         prop_oneof![6 => small_bytes(64), 2 => small_bytes(2048), 1 => vec(any::<u8>(), 16384..=16384), 1 => vec(any::<u8>(), 65527..=65527)].boxed()
     } else {
-        prop_oneof![6 => small_bytes(64), 1 => small_bytes(2048)].boxed()
+        prop_oneof![60 => small_bytes(64), 10 => small_bytes(2048), 3 => vec(any::<u8>(), 16384..=16384)].boxed()
     };
     prop_oneof![
         2 => Just(RFrame::KeepAlive),
